@@ -4,6 +4,7 @@ CONSTANTS
   MaxFaults = 2
   MaxForgets = 1
   FixedReader = FALSE
+  LinkBeforeClose = FALSE
 INIT Init
 NEXT Next
 INVARIANT Recovers
